@@ -245,6 +245,7 @@ fn prop_cmd(args: &[String]) -> i32 {
     let out = arg(args, "--out");
     let max_secs: Option<f64> = arg(args, "--cfg-max-secs").and_then(|s| s.parse().ok());
     let emit = arg(args, "--emit-outcomes");
+    let skip_idx: Vec<usize> = arg(args, "--skip-idx").unwrap_or("").split(',').filter_map(|x| x.parse().ok()).collect();
     let mut emitted = String::new();
     let list = configs::for_property(&prop, tier);
     let total = list.len();
@@ -267,6 +268,10 @@ fn prop_cmd(args: &[String]) -> i32 {
         if (i as u64).wrapping_add(seed) as usize % sn != si {
             continue;
         }
+        if skip_idx.contains(&i) {
+            continue;
+        }
+        sh::set_abort_context(format!("idx={i}\tcli={}{}", cfg.cli(), o.cli()));
         let mut o = o.clone();
         if let Some(m) = max_secs {
             o.max_secs = m;
